@@ -164,6 +164,43 @@ Record ucfg := {
 (* state                                                                                                        *)
 (* ------------------------------------------------------------------------------------------------------------ *)
 
+(* ---- operations ---- *)
+Inductive op :=
+(* transport events *)
+| OOpen                                   (* ITransportHandler.onOpen(transport) *)
+| OLost (clean : bool)                    (* ITransportHandler.onClose(wasClean) *)
+| OTurn                                   (* asyncio: one loop iteration (runs the callbacks queued before it) *)
+(* user API *)
+| ACall (uri : N) (a : list N) (kw : list (N * N)) (o : option call_opts)
+| APublish (uri : N) (a : list N) (kw : list (N * N)) (o : option pub_opts)
+| ASubscribe (uri : N) (o : option sub_opts)
+| ARegister (uri : N) (o : option reg_opts)
+| AUnsubscribe (h : N)                    (* Subscription.unsubscribe() of the object produced by future h *)
+| AUnregister (h : N)                     (* Registration.unregister() *)
+| ACancel (f : N)                         (* txaio.cancel(f) *)
+| ALeave (r : option reason)
+| ADisconnect
+| AReact (f : N) (o : op)              (* the user attaches a callback/errback to future f that, when it fires,
+                                          issues the API call o (the retry idiom); o: call / publish / subscribe /
+                                          register / unregister *)
+(* router messages handed to onMessage *)
+| RWelcome (sidv : N)
+| RAbort (r : reason)
+| RChallenge
+| RGoodbye (r : reason)
+| RPublished (rq pubid : N)
+| RSubscribed (rq subid : N)
+| RUnsubscribed (rq : N)
+| RResult (rq : N) (progress : bool) (p : payload)
+| RRegistered (rq regid : N)
+| RUnregistered (rq : N) (regid : option N)
+| RError (rtype rq uri : N) (p : payload)
+| REvent (subid : N)
+| RInvocation (rq regid : N)
+| RInterrupt (rq : N)
+| ROther.                                 (* any other message class (HELLO, AUTHENTICATE, CALL, YIELD, ...) *)
+
+
 (* request.py: PublishRequest / SubscribeRequest / UnsubscribeRequest / CallRequest / RegisterRequest /
    UnregisterRequest, with the table they live in *)
 Record req := {
@@ -206,64 +243,70 @@ Record sess := {
   next_fut : N;                  (* ghost: next future identity *)
   done : list (N * result);      (* ghost ledger: futures that have a result, in completion order *)
   issued : list (N * (kind * N)); (* ghost ledger: future -> (kind, request id) it was created for *)
-  lost : list N                  (* ghost ledger: futures whose request record was dropped without completing them *)
+  lost : list N;                 (* ghost ledger: futures whose request record was dropped without completing them *)
+  reacts : list (N * op)         (* user code: future -> API call its callback/errback issues when it fires *)
 }.
 
 Definition init : sess :=
   {| opened := false; transport := false; topen := false; sid := None; sdetails := None; goodbye_sent := false;
      next_id := IDGEN_START; pend := []; subs := []; regs := []; invs := []; queue := []; next_fut := 0;
-     done := []; issued := []; lost := [] |}.
+     done := []; issued := []; lost := []; reacts := [] |}.
 
 (* field updates *)
 Definition set_conn (s : sess) (o t tp : bool) : sess :=
   {| opened := o; transport := t; topen := tp; sid := sid s; sdetails := sdetails s; goodbye_sent := goodbye_sent s;
      next_id := next_id s; pend := pend s; subs := subs s; regs := regs s; invs := invs s; queue := queue s;
-     next_fut := next_fut s; done := done s; issued := issued s; lost := lost s |}.
+     next_fut := next_fut s; done := done s; issued := issued s; lost := lost s; reacts := reacts s |}.
 Definition set_sid (s : sess) (v : option N) : sess :=
   {| opened := opened s; transport := transport s; topen := topen s; sid := v; sdetails := sdetails s;
      goodbye_sent := goodbye_sent s; next_id := next_id s; pend := pend s; subs := subs s; regs := regs s;
-     invs := invs s; queue := queue s; next_fut := next_fut s; done := done s; issued := issued s; lost := lost s |}.
+     invs := invs s; queue := queue s; next_fut := next_fut s; done := done s; issued := issued s; lost := lost s; reacts := reacts s |}.
 Definition set_sdetails (s : sess) (v : option N) : sess :=
   {| opened := opened s; transport := transport s; topen := topen s; sid := sid s; sdetails := v;
      goodbye_sent := goodbye_sent s; next_id := next_id s; pend := pend s; subs := subs s; regs := regs s;
-     invs := invs s; queue := queue s; next_fut := next_fut s; done := done s; issued := issued s; lost := lost s |}.
+     invs := invs s; queue := queue s; next_fut := next_fut s; done := done s; issued := issued s; lost := lost s; reacts := reacts s |}.
 Definition set_goodbye (s : sess) (v : bool) : sess :=
   {| opened := opened s; transport := transport s; topen := topen s; sid := sid s; sdetails := sdetails s;
      goodbye_sent := v; next_id := next_id s; pend := pend s; subs := subs s; regs := regs s;
-     invs := invs s; queue := queue s; next_fut := next_fut s; done := done s; issued := issued s; lost := lost s |}.
+     invs := invs s; queue := queue s; next_fut := next_fut s; done := done s; issued := issued s; lost := lost s; reacts := reacts s |}.
 Definition set_pend (s : sess) (v : list req) : sess :=
   {| opened := opened s; transport := transport s; topen := topen s; sid := sid s; sdetails := sdetails s;
      goodbye_sent := goodbye_sent s; next_id := next_id s; pend := v; subs := subs s; regs := regs s;
-     invs := invs s; queue := queue s; next_fut := next_fut s; done := done s; issued := issued s; lost := lost s |}.
+     invs := invs s; queue := queue s; next_fut := next_fut s; done := done s; issued := issued s; lost := lost s; reacts := reacts s |}.
 Definition set_subs (s : sess) (v : list (N * list N)) : sess :=
   {| opened := opened s; transport := transport s; topen := topen s; sid := sid s; sdetails := sdetails s;
      goodbye_sent := goodbye_sent s; next_id := next_id s; pend := pend s; subs := v; regs := regs s;
-     invs := invs s; queue := queue s; next_fut := next_fut s; done := done s; issued := issued s; lost := lost s |}.
+     invs := invs s; queue := queue s; next_fut := next_fut s; done := done s; issued := issued s; lost := lost s; reacts := reacts s |}.
 Definition set_regs (s : sess) (v : list (N * N)) : sess :=
   {| opened := opened s; transport := transport s; topen := topen s; sid := sid s; sdetails := sdetails s;
      goodbye_sent := goodbye_sent s; next_id := next_id s; pend := pend s; subs := subs s; regs := v;
-     invs := invs s; queue := queue s; next_fut := next_fut s; done := done s; issued := issued s; lost := lost s |}.
+     invs := invs s; queue := queue s; next_fut := next_fut s; done := done s; issued := issued s; lost := lost s; reacts := reacts s |}.
 Definition set_invs (s : sess) (v : list N) : sess :=
   {| opened := opened s; transport := transport s; topen := topen s; sid := sid s; sdetails := sdetails s;
      goodbye_sent := goodbye_sent s; next_id := next_id s; pend := pend s; subs := subs s; regs := regs s;
-     invs := v; queue := queue s; next_fut := next_fut s; done := done s; issued := issued s; lost := lost s |}.
+     invs := v; queue := queue s; next_fut := next_fut s; done := done s; issued := issued s; lost := lost s; reacts := reacts s |}.
 Definition set_queue (s : sess) (v : list thunk) : sess :=
   {| opened := opened s; transport := transport s; topen := topen s; sid := sid s; sdetails := sdetails s;
      goodbye_sent := goodbye_sent s; next_id := next_id s; pend := pend s; subs := subs s; regs := regs s;
-     invs := invs s; queue := v; next_fut := next_fut s; done := done s; issued := issued s; lost := lost s |}.
+     invs := invs s; queue := v; next_fut := next_fut s; done := done s; issued := issued s; lost := lost s; reacts := reacts s |}.
 Definition set_done (s : sess) (v : list (N * result)) : sess :=
   {| opened := opened s; transport := transport s; topen := topen s; sid := sid s; sdetails := sdetails s;
      goodbye_sent := goodbye_sent s; next_id := next_id s; pend := pend s; subs := subs s; regs := regs s;
-     invs := invs s; queue := queue s; next_fut := next_fut s; done := v; issued := issued s; lost := lost s |}.
+     invs := invs s; queue := queue s; next_fut := next_fut s; done := v; issued := issued s; lost := lost s; reacts := reacts s |}.
 (* a new request: next request id consumed, new future, recorded in the table and in the ghost ledgers *)
 Definition set_newreq (s : sess) (nid : N) (p : list req) (nf : N) (iss : list (N * (kind * N))) (lst : list N) : sess :=
   {| opened := opened s; transport := transport s; topen := topen s; sid := sid s; sdetails := sdetails s;
      goodbye_sent := goodbye_sent s; next_id := nid; pend := p; subs := subs s; regs := regs s;
-     invs := invs s; queue := queue s; next_fut := nf; done := done s; issued := iss; lost := lst |}.
+     invs := invs s; queue := queue s; next_fut := nf; done := done s; issued := iss; lost := lst; reacts := reacts s |}.
 Definition set_lost (s : sess) (v : list N) : sess :=
   {| opened := opened s; transport := transport s; topen := topen s; sid := sid s; sdetails := sdetails s;
      goodbye_sent := goodbye_sent s; next_id := next_id s; pend := pend s; subs := subs s; regs := regs s;
-     invs := invs s; queue := queue s; next_fut := next_fut s; done := done s; issued := issued s; lost := v |}.
+     invs := invs s; queue := queue s; next_fut := next_fut s; done := done s; issued := issued s; lost := v; reacts := reacts s |}.
+Definition set_reacts (s : sess) (v : list (N * op)) : sess :=
+  {| opened := opened s; transport := transport s; topen := topen s; sid := sid s; sdetails := sdetails s;
+     goodbye_sent := goodbye_sent s; next_id := next_id s; pend := pend s; subs := subs s; regs := regs s;
+     invs := invs s; queue := queue s; next_fut := next_fut s; done := done s; issued := issued s; lost := lost s;
+     reacts := v |}.
 Definition enqueue (s : sess) (t : thunk) : sess := set_queue s (queue s ++ [t]).
 
 (* Python truthiness of self._session_id  (`if self._session_id:` -- the id 0 is falsy) *)
@@ -303,7 +346,7 @@ Definition drop_request (s : sess) (k : kind) (id f : N) : sess :=
   {| opened := opened s; transport := transport s; topen := topen s; sid := sid s; sdetails := sdetails s;
      goodbye_sent := goodbye_sent s; next_id := next_id s; pend := remove_req k id (pend s); subs := subs s;
      regs := regs s; invs := invs s; queue := queue s; next_fut := next_fut s; done := done s;
-     issued := filter (fun e => negb (fst e =? f)) (issued s); lost := lost s |}.
+     issued := filter (fun e => negb (fst e =? f)) (issued s); lost := lost s; reacts := reacts s |}.
 
 
 (* ---- subscriptions / registrations ---- *)
@@ -331,20 +374,118 @@ Definition send (cfg : ucfg) (s : sess) (m : wmsg) : list out * bool :=
   else if t_lenient cfg && transport s then ([Dropped m], true)
   else ([SendFailed m], false).
 
+(* ---- the request API calls that need no object look-up through a completed future's callbacks ---- *)
+(* new request of kind k: ids and future allocated, request recorded (record-before-send) *)
+Definition new_request (s : sess) (k : kind) (o : option call_opts) (target : N) : sess * N * N :=
+  let id := idgen_next (next_id s) in
+  let f := next_fut s in
+  let r := {| r_kind := k; r_id := id; r_fut := f; r_opts := o; r_target := target |} in
+  (* dict[id] = request: after the generator wrapped, a still-pending request with the same id is overwritten and
+     its future is never completed (ghost: recorded as lost) *)
+  let lst := match find_req k id (pend s) with Some old => lost s ++ [r_fut old] | None => lost s end in
+  (set_newreq s id (put_req r (pend s)) (f + 1) (issued s ++ [(f, (k, id))]) lst, id, f).
+
+(* publish() without acknowledge: an id is consumed, no future *)
+Definition new_id_only (s : sess) : sess * N :=
+  let id := idgen_next (next_id s) in
+  (set_newreq s id (pend s) (next_fut s) (issued s) (lost s), id).
+
+(* message.Subscribe / message.Register: match=None -> MATCH_EXACT, invoke=None -> INVOKE_SINGLE *)
+Definition opt_default (o : option N) : N := match o with Some v => v | None => 0 end.
+
+Definition po_wants_ack (o : option pub_opts) : bool :=
+  match o with Some p => match po_ack p with Some true => true | _ => false end | None => false end.
+
+Definition sub_id_of (s : sess) (h : N) : option N :=
+  match result_of s h with Some (ROk (VSubscription i)) => Some i | _ => None end.
+Definition reg_id_of (s : sess) (h : N) : option N :=
+  match result_of s h with Some (ROk (VRegistration i)) => Some i | _ => None end.
+
+
+Definition isNoneB {A} (o : option A) : bool := match o with None => true | Some _ => false end.
+Definition is_react_op (o : op) : bool :=
+  match o with ACall _ _ _ _ | APublish _ _ _ _ | ASubscribe _ _ | ARegister _ _ | AUnregister _ => true | _ => false end.
+
+(* protocol.py call() / publish() / subscribe() / register() / _unregister(): guard; id; request recorded; send.
+   call/publish delete the record again when send() raises, the others leave it. *)
+Definition api_step (cfg : ucfg) (s : sess) (o : op) : sess * list out :=
+  match o with
+  | ACall uri a kw o =>
+      if negb (transport s) then (s, [ApiRaised XTransportLost])
+      else
+        let '(s1, id, f) := new_request s KCall o uri in
+        let m := MCall id uri a kw (match o with Some c => co_timeout c | None => None end)
+                       (match o with Some c => co_progress c | None => false end) in
+        let '(o1, ok) := send cfg s1 m in
+        if ok then (s1, o1 ++ [ApiReturned (Some f)])
+        else (drop_request s1 KCall id f, o1 ++ [ApiRaised XTransportLost])
+  | APublish uri a kw o =>
+      if negb (transport s) then (s, [ApiRaised XTransportLost])
+      else
+        let ack := match o with Some p => po_ack p | None => None end in
+        let excl := match o with Some p => po_exclude_me p | None => None end in
+        if po_wants_ack o then
+          let '(s1, id, f) := new_request s KPublish None uri in
+          let '(o1, ok) := send cfg s1 (MPublish id uri a kw ack excl) in
+          if ok then (s1, o1 ++ [ApiReturned (Some f)])
+          else (drop_request s1 KPublish id f, o1 ++ [ApiRaised XTransportLost])
+        else
+          let '(s1, id) := new_id_only s in
+          let '(o1, ok) := send cfg s1 (MPublish id uri a kw ack excl) in
+          (s1, o1 ++ [if ok then ApiReturned None else ApiRaised XTransportLost])
+  | ASubscribe uri o =>
+      (* subscribe(): guard; _subscribe: id; SubscribeRequest recorded; send (a failing send leaves the record) *)
+      if negb (transport s) then (s, [ApiRaised XTransportLost])
+      else
+        let '(s1, id, f) := new_request s KSubscribe None uri in
+        let '(o1, ok) := send cfg s1 (MSubscribe id uri (match o with Some c => opt_default (so_match c) | None => 0 end)
+                                                 (match o with Some c => so_get_retained c | None => None end)) in
+        (s1, o1 ++ [if ok then ApiReturned (Some f) else ApiRaised XTransportLost])
+  | ARegister uri o =>
+      if negb (transport s) then (s, [ApiRaised XTransportLost])
+      else
+        let '(s1, id, f) := new_request s KRegister None uri in
+        let '(o1, ok) := send cfg s1 (MRegister id uri (match o with Some c => opt_default (ro_match c) | None => 0 end)
+                                                (match o with Some c => opt_default (ro_invoke c) | None => 0 end)) in
+        (s1, o1 ++ [if ok then ApiReturned (Some f) else ApiRaised XTransportLost])
+  | AUnregister h =>
+      match reg_id_of s h with
+      | None => (s, [ApiRaised XNoObject])
+      | Some regid =>
+          match assoc regid (regs s) with
+          | None => (s, [ApiRaised XException])                        (* "registration no longer active" *)
+          | Some h' =>
+              if negb (h' =? h) then (s, [ApiRaised XException])
+              else if negb (transport s) then (s, [ApiRaised XTransportLost])
+              else
+                let '(s1, id, f) := new_request s KUnregister None regid in
+                let '(o1, ok) := send cfg s1 (MUnregister id regid) in
+                (s1, o1 ++ [if ok then ApiReturned (Some f) else ApiRaised XTransportLost])
+          end
+      end
+  | _ => (s, [])
+  end.
+
+(* the user's callbacks on future f run: the logging callback (observation [Completed]), then -- if the user attached
+   one ([AReact]) -- the callback that re-enters the API *)
+Definition react (cfg : ucfg) (s : sess) (f : N) : sess * list out :=
+  match assoc f (reacts s) with Some o => api_step cfg s o | None => (s, []) end.
+
 (* txaio.resolve / txaio.reject on a request future, behind the `txaio.is_called` guard every call site has.
-   Twisted: the user's callbacks run now; asyncio: they are scheduled. *)
-Definition complete (fl : flavour) (s : sess) (f : N) (r : result) : sess * list out :=
+   Twisted: the user's callbacks run now, synchronously, inside whatever the session is doing (a callback that
+   issues a request re-enters the session here); asyncio: they are scheduled. *)
+Definition complete (fl : flavour) (cfg : ucfg) (s : sess) (f : N) (r : result) : sess * list out :=
   if is_done s f then (s, [])
   else let s1 := set_done s (done s ++ [(f, r)]) in
        match fl with
-       | Tx => (s1, [Completed f r])
+       | Tx => let '(s2, o2) := react cfg s1 f in (s2, Completed f r :: o2)
        | Aio => (enqueue s1 (TLeaf (LUserDone f r)), [])
        end.
 
 (* continuations that schedule nothing further *)
 Definition run_leaf (fl : flavour) (cfg : ucfg) (s : sess) (l : leaf) : sess * list out :=
   match l with
-  | LUserDone f r => (s, [Completed f r])
+  | LUserDone f r => let '(s2, o2) := react cfg s f in (s2, Completed f r :: o2)
   | LJoin =>
       (* protocol.py Welcome/success: onJoin(self._session_details); a failure reaches the "While firing onJoin"
          errback only on Twisted (chained); on asyncio nobody looks at the failed future *)
@@ -378,15 +519,15 @@ Definition defer_leaf (fl : flavour) (cfg : ucfg) (s : sess) (l : leaf) : sess *
 
 (* protocol.py _errback_outstanding_requests(exc): requests table by table in the fixed order, each table in
    insertion order; tables cleared first; each future rejected unless already called *)
-Fixpoint errback_list (fl : flavour) (s : sess) (e : err) (l : list req) : sess * list out :=
+Fixpoint errback_list (fl : flavour) (cfg : ucfg) (s : sess) (e : err) (l : list req) : sess * list out :=
   match l with
   | [] => (s, [])
-  | r :: t => let '(s1, o1) := complete fl s (r_fut r) (RErr e) in
-              let '(s2, o2) := errback_list fl s1 e t in (s2, o1 ++ o2)
+  | r :: t => let '(s1, o1) := complete fl cfg s (r_fut r) (RErr e) in
+              let '(s2, o2) := errback_list fl cfg s1 e t in (s2, o1 ++ o2)
   end.
 Definition outstanding (l : list req) : list req := flat_map (fun k => table k l) all_kinds.
-Definition errback_all (fl : flavour) (s : sess) (e : err) : sess * list out :=
-  errback_list fl (set_pend s []) e (outstanding (pend s)).
+Definition errback_all (fl : flavour) (cfg : ucfg) (s : sess) (e : err) : sess * list out :=
+  errback_list fl cfg (set_pend s []) e (outstanding (pend s)).
 
 (* txaio.as_future(self.onLeave, details): the user's onLeave runs now; result: did it raise *)
 Definition do_onLeave (fl : flavour) (cfg : ucfg) (s : sess) (rs : reason) : sess * list out * bool :=
@@ -394,7 +535,7 @@ Definition do_onLeave (fl : flavour) (cfg : ucfg) (s : sess) (rs : reason) : ses
   if u_leave_super cfg then
     (* protocol.py onLeave: exc = ApplicationError(details.reason, ...); d = _errback_outstanding_requests(exc);
        add_callbacks(d, disconnect, disconnect) *)
-    let '(s1, o1) := errback_all fl s (ELeave rs) in
+    let '(s1, o1) := errback_all fl cfg s (ELeave rs) in
     let '(s2, o2) := defer_leaf fl cfg s1 LLeaveDisconnect in
     (s2, o0 ++ o1 ++ o2, u_leave_raises cfg)
   else (s, o0, u_leave_raises cfg).
@@ -404,7 +545,7 @@ Definition do_onDisconnect (fl : flavour) (cfg : ucfg) (s : sess) : sess * list 
   let o0 := [Called CbDisconnect] in
   if u_disc_super cfg then
     (* protocol.py onDisconnect: self._errback_outstanding_requests(exception.TransportLost()) *)
-    let '(s1, o1) := errback_all fl s ETransportLost in (s1, o0 ++ o1, u_disc_raises cfg)
+    let '(s1, o1) := errback_all fl cfg s ETransportLost in (s1, o0 ++ o1, u_disc_raises cfg)
   else (s, o0, u_disc_raises cfg).
 
 (* the abort path shared by "onChallenge failed": onUserError, send ABORT, onLeave, continuation *)
@@ -488,59 +629,6 @@ Definition defer (fl : flavour) (cfg : ucfg) (s : sess) (t : thunk) : sess * lis
 (* operations                                                                                                   *)
 (* ------------------------------------------------------------------------------------------------------------ *)
 
-Inductive op :=
-(* transport events *)
-| OOpen                                   (* ITransportHandler.onOpen(transport) *)
-| OLost (clean : bool)                    (* ITransportHandler.onClose(wasClean) *)
-| OTurn                                   (* asyncio: one loop iteration (runs the callbacks queued before it) *)
-(* user API *)
-| ACall (uri : N) (a : list N) (kw : list (N * N)) (o : option call_opts)
-| APublish (uri : N) (a : list N) (kw : list (N * N)) (o : option pub_opts)
-| ASubscribe (uri : N) (o : option sub_opts)
-| ARegister (uri : N) (o : option reg_opts)
-| AUnsubscribe (h : N)                    (* Subscription.unsubscribe() of the object produced by future h *)
-| AUnregister (h : N)                     (* Registration.unregister() *)
-| ACancel (f : N)                         (* txaio.cancel(f) *)
-| ALeave (r : option reason)
-| ADisconnect
-(* router messages handed to onMessage *)
-| RWelcome (sidv : N)
-| RAbort (r : reason)
-| RChallenge
-| RGoodbye (r : reason)
-| RPublished (rq pubid : N)
-| RSubscribed (rq subid : N)
-| RUnsubscribed (rq : N)
-| RResult (rq : N) (progress : bool) (p : payload)
-| RRegistered (rq regid : N)
-| RUnregistered (rq : N) (regid : option N)
-| RError (rtype rq uri : N) (p : payload)
-| REvent (subid : N)
-| RInvocation (rq regid : N)
-| RInterrupt (rq : N)
-| ROther.                                 (* any other message class (HELLO, AUTHENTICATE, CALL, YIELD, ...) *)
-
-(* new request of kind k: ids and future allocated, request recorded (record-before-send) *)
-Definition new_request (s : sess) (k : kind) (o : option call_opts) (target : N) : sess * N * N :=
-  let id := idgen_next (next_id s) in
-  let f := next_fut s in
-  let r := {| r_kind := k; r_id := id; r_fut := f; r_opts := o; r_target := target |} in
-  (* dict[id] = request: after the generator wrapped, a still-pending request with the same id is overwritten and
-     its future is never completed (ghost: recorded as lost) *)
-  let lst := match find_req k id (pend s) with Some old => lost s ++ [r_fut old] | None => lost s end in
-  (set_newreq s id (put_req r (pend s)) (f + 1) (issued s ++ [(f, (k, id))]) lst, id, f).
-
-(* publish() without acknowledge: an id is consumed, no future *)
-Definition new_id_only (s : sess) : sess * N :=
-  let id := idgen_next (next_id s) in
-  (set_newreq s id (pend s) (next_fut s) (issued s) (lost s), id).
-
-(* message.Subscribe / message.Register: match=None -> MATCH_EXACT, invoke=None -> INVOKE_SINGLE *)
-Definition opt_default (o : option N) : N := match o with Some v => v | None => 0 end.
-
-Definition po_wants_ack (o : option pub_opts) : bool :=
-  match o with Some p => match po_ack p with Some true => true | _ => false end | None => false end.
-
 (* CALL reply content: protocol.py Result branch, "process final call result" *)
 Definition call_details (o : option call_opts) : bool := match o with Some c => co_details c | None => false end.
 Definition result_value (details : bool) (p : payload) : value :=
@@ -561,11 +649,6 @@ Definition pop_reply (s : sess) (k : kind) (rq : N) (found : req -> sess -> sess
               if is_done s1 (r_fut r) then (s1, []) else found r s1
   end.
 
-Definition sub_id_of (s : sess) (h : N) : option N :=
-  match result_of s h with Some (ROk (VSubscription i)) => Some i | _ => None end.
-Definition reg_id_of (s : sess) (h : N) : option N :=
-  match result_of s h with Some (ROk (VRegistration i)) => Some i | _ => None end.
-
 (* ---- established session: protocol.py onMessage, else-branch ---- *)
 Definition on_message_established (fl : flavour) (cfg : ucfg) (s : sess) (o : op) : sess * list out :=
   match o with
@@ -584,16 +667,16 @@ Definition on_message_established (fl : flavour) (cfg : ucfg) (s : sess) (o : op
       | None => (s, [Raised XProtocolError])
       end
   | RPublished rq pubid =>
-      pop_reply s KPublish rq (fun r s1 => complete fl s1 (r_fut r) (ROk (VPublication pubid)))
+      pop_reply s KPublish rq (fun r s1 => complete fl cfg s1 (r_fut r) (ROk (VPublication pubid)))
   | RSubscribed rq subid =>
       pop_reply s KSubscribe rq (fun r s1 =>
         let cur := match assoc subid (subs s1) with Some l => l | None => [] end in
         let s2 := set_subs s1 (assoc_set subid (cur ++ [r_fut r]) (subs s1)) in
-        complete fl s2 (r_fut r) (ROk (VSubscription subid)))
+        complete fl cfg s2 (r_fut r) (ROk (VSubscription subid)))
   | RUnsubscribed rq =>
       pop_reply s KUnsubscribe rq (fun r s1 =>
         let s2 := set_subs s1 (assoc_remove (r_target r) (subs s1)) in
-        complete fl s2 (r_fut r) (ROk VZero))
+        complete fl cfg s2 (r_fut r) (ROk VZero))
   | RResult rq progress p =>
       match find_req KCall rq (pend s) with
       | None => (s, [Raised XProtocolError])
@@ -613,7 +696,7 @@ Definition on_message_established (fl : flavour) (cfg : ucfg) (s : sess) (o : op
           else
             let s1 := set_pend s (remove_req KCall rq (pend s)) in
             if is_done s1 (r_fut r) then (s1, [])
-            else complete fl s1 (r_fut r) (ROk (result_value (call_details (r_opts r)) p))
+            else complete fl cfg s1 (r_fut r) (ROk (result_value (call_details (r_opts r)) p))
       end
   | RInvocation rq regid =>
       if memN rq (invs s) then (s, [Raised XProtocolError])
@@ -625,7 +708,7 @@ Definition on_message_established (fl : flavour) (cfg : ucfg) (s : sess) (o : op
   | RRegistered rq regid =>
       pop_reply s KRegister rq (fun r s1 =>
         match assoc regid (regs s1) with
-        | None => complete fl (set_regs s1 (regs s1 ++ [(regid, r_fut r)])) (r_fut r) (ROk (VRegistration regid))
+        | None => complete fl cfg (set_regs s1 (regs s1 ++ [(regid, r_fut r)])) (r_fut r) (ROk (VRegistration regid))
         | Some _ => (set_lost s1 (lost s1 ++ [r_fut r]), [Raised XProtocolError])
                                                             (* already popped: the future is never completed *)
         end)
@@ -638,14 +721,14 @@ Definition on_message_established (fl : flavour) (cfg : ucfg) (s : sess) (o : op
       else
         pop_reply s KUnregister rq (fun r s1 =>
           let s2 := set_regs s1 (assoc_remove (r_target r) (regs s1)) in
-          complete fl s2 (r_fut r) (ROk VNone))
+          complete fl cfg s2 (r_fut r) (ROk VNone))
   | RError rtype rq uri p =>
       match kind_of_code rtype with
       | None => (s, [Raised XProtocolError])
       | Some k =>
           match find_req k rq (pend s) with
           | None => (s, [Raised XProtocolError])
-          | Some r => complete fl (set_pend s (remove_req k rq (pend s))) (r_fut r) (RErr (EApp uri p))
+          | Some r => complete fl cfg (set_pend s (remove_req k rq (pend s))) (r_fut r) (RErr (EApp uri p))
           end
       end
   | _ => (s, [Raised XProtocolError])     (* Unexpected message (WELCOME / ABORT / CHALLENGE / anything else) *)
@@ -706,45 +789,7 @@ Definition step (fl : flavour) (cfg : ucfg) (s : sess) (o : op) : sess * list ou
       | Tx => (s, [])
       | Aio => run_queue fl cfg (set_queue s []) (queue s)
       end
-  | ACall uri a kw o =>
-      (* protocol.py call(): guard; id; CallRequest recorded; send; on failure the record is removed *)
-      if negb (transport s) then (s, [ApiRaised XTransportLost])
-      else
-        let '(s1, id, f) := new_request s KCall o uri in
-        let m := MCall id uri a kw (match o with Some c => co_timeout c | None => None end)
-                       (match o with Some c => co_progress c | None => false end) in
-        let '(o1, ok) := send cfg s1 m in
-        if ok then (s1, o1 ++ [ApiReturned (Some f)])
-        else (drop_request s1 KCall id f, o1 ++ [ApiRaised XTransportLost])
-  | APublish uri a kw o =>
-      if negb (transport s) then (s, [ApiRaised XTransportLost])
-      else
-        let ack := match o with Some p => po_ack p | None => None end in
-        let excl := match o with Some p => po_exclude_me p | None => None end in
-        if po_wants_ack o then
-          let '(s1, id, f) := new_request s KPublish None uri in
-          let '(o1, ok) := send cfg s1 (MPublish id uri a kw ack excl) in
-          if ok then (s1, o1 ++ [ApiReturned (Some f)])
-          else (drop_request s1 KPublish id f, o1 ++ [ApiRaised XTransportLost])
-        else
-          let '(s1, id) := new_id_only s in
-          let '(o1, ok) := send cfg s1 (MPublish id uri a kw ack excl) in
-          (s1, o1 ++ [if ok then ApiReturned None else ApiRaised XTransportLost])
-  | ASubscribe uri o =>
-      (* subscribe(): guard; _subscribe: id; SubscribeRequest recorded; send (a failing send leaves the record) *)
-      if negb (transport s) then (s, [ApiRaised XTransportLost])
-      else
-        let '(s1, id, f) := new_request s KSubscribe None uri in
-        let '(o1, ok) := send cfg s1 (MSubscribe id uri (match o with Some c => opt_default (so_match c) | None => 0 end)
-                                                 (match o with Some c => so_get_retained c | None => None end)) in
-        (s1, o1 ++ [if ok then ApiReturned (Some f) else ApiRaised XTransportLost])
-  | ARegister uri o =>
-      if negb (transport s) then (s, [ApiRaised XTransportLost])
-      else
-        let '(s1, id, f) := new_request s KRegister None uri in
-        let '(o1, ok) := send cfg s1 (MRegister id uri (match o with Some c => opt_default (ro_match c) | None => 0 end)
-                                                (match o with Some c => opt_default (ro_invoke c) | None => 0 end)) in
-        (s1, o1 ++ [if ok then ApiReturned (Some f) else ApiRaised XTransportLost])
+  | ACall _ _ _ _ | APublish _ _ _ _ | ASubscribe _ _ | ARegister _ _ | AUnregister _ => api_step cfg s o
   | AUnsubscribe h =>
       (* request.py Subscription.unsubscribe -> protocol.py _unsubscribe *)
       match sub_id_of s h with
@@ -765,24 +810,9 @@ Definition step (fl : flavour) (cfg : ucfg) (s : sess) (o : op) : sess * list ou
                 (* txaio.create_future_success(scount): a future that already has its result *)
                 let f := next_fut s0 in
                 let s1 := set_newreq s0 (next_id s0) (pend s0) (f + 1) (issued s0) (lost s0) in
-                let '(s2, o2) := complete fl s1 f (ROk (VCount (N.of_nat (length rest)))) in
+                let '(s2, o2) := complete fl cfg s1 f (ROk (VCount (N.of_nat (length rest)))) in
                 (s2, ApiReturned (Some f) :: o2)
             end
-      end
-  | AUnregister h =>
-      match reg_id_of s h with
-      | None => (s, [ApiRaised XNoObject])
-      | Some regid =>
-          match assoc regid (regs s) with
-          | None => (s, [ApiRaised XException])                        (* "registration no longer active" *)
-          | Some h' =>
-              if negb (h' =? h) then (s, [ApiRaised XException])
-              else if negb (transport s) then (s, [ApiRaised XTransportLost])
-              else
-                let '(s1, id, f) := new_request s KUnregister None regid in
-                let '(o1, ok) := send cfg s1 (MUnregister id regid) in
-                (s1, o1 ++ [if ok then ApiReturned (Some f) else ApiRaised XTransportLost])
-          end
       end
   | ACancel f =>
       (* txaio.cancel(f) on a future returned by an API call.  Only call() installs a canceller. *)
@@ -798,10 +828,10 @@ Definition step (fl : flavour) (cfg : ucfg) (s : sess) (o : op) : sess * list ou
                 | KCall =>
                     if transport s then
                       let '(o1, ok) := send cfg s (MCancel id) in
-                      if ok then let '(s1, o2) := complete fl s f (RErr ECancelled) in (s1, o1 ++ o2 ++ [ApiReturned None])
+                      if ok then let '(s1, o2) := complete fl cfg s f (RErr ECancelled) in (s1, o1 ++ o2 ++ [ApiReturned None])
                       else (s, o1 ++ [ApiRaised XTransportLost])
                     else (s, [ApiRaised XAttributeError])
-                | _ => let '(s1, o2) := complete fl s f (RErr ECancelled) in (s1, o2 ++ [ApiReturned None])
+                | _ => let '(s1, o2) := complete fl cfg s f (RErr ECancelled) in (s1, o2 ++ [ApiReturned None])
                 end
             | Aio =>
                 (* Future.cancel(): done now; the canceller hook and the user's callback are scheduled *)
@@ -818,6 +848,11 @@ Definition step (fl : flavour) (cfg : ucfg) (s : sess) (o : op) : sess * list ou
       else
         let '(o1, ok) := send cfg s (MGoodbye (match r with Some x => x | None => RsNormal end)) in
         if ok then (set_goodbye s true, o1 ++ [ApiReturned None]) else (s, o1 ++ [ApiRaised XTransportLost])
+  | AReact f o' =>
+      (* user code: txaio.add_callbacks(f, cb, cb) with cb = lambda _: session.<api>(...) on a future that has no
+         result yet and no such callback so far *)
+      if is_react_op o' && negb (is_done s f) && isNoneB (assoc f (reacts s))
+      then (set_reacts s (reacts s ++ [(f, o')]), []) else (s, [])
   | ADisconnect =>
       (* protocol.py disconnect(): if self._transport: self._transport.close() *)
       if transport s then (set_conn s (opened s) true false, [TransportClose; ApiReturned None])
